@@ -63,6 +63,40 @@ def make_pairs(rng, sc, frac):
     sc.reads = out
 
 
+def add_island(rng, sc, ctx):
+    """On one contig of one sample replace the reads by: paired-end fragments whose mates cover only v[i] and only v[l],
+    and short reads that cover exactly the variants in between (v[j..k], the 'island').  Nothing links the island to
+    the fragments, so the island is a phase set of its own (or unphased, if a single variant) whatever its orientation."""
+    s = sc.samples[0]
+    for name, seq in sc.contigs.items():
+        vs = sc.variants[name]
+        hs = sc.haps[(s, name)]
+        het = [i for i in range(len(vs)) if hs[0][i] != hs[1][i]]
+        for x in range(len(het) - 3):
+            i, j, k, l = het[x], het[x + 1], het[x + 2], het[x + 3]
+            reads, pid = [], 0
+            ok = True
+            for h in (0, 1):
+                for rep in range(3):
+                    A = sim.hap_read(seq, vs, hs[h], max(0, vs[i].pos - 30 - rep), vs[i].pos + len(vs[i].ref) + 12)
+                    B = sim.hap_read(seq, vs, hs[h], vs[l].pos - 12, min(len(seq), vs[l].pos + len(vs[l].ref) + 30 + rep))
+                    M = sim.hap_read(seq, vs, hs[h], vs[j].pos - 12 - rep, vs[k].pos + len(vs[k].ref) + 12 + rep)
+                    if not (A and B and M) or A[3] != [i] or B[3] != [l] or M[3] != list(range(j, k + 1)) or A[0] + 2 >= B[0]:
+                        ok = False; break
+                    pid += 1
+                    base = {"chrom": name, "rg": "rg_" + s, "sample": s, "hap": h, "mapq": 60}
+                    ra = dict(base, name=f"isl{pid}_{s}_h{h}", start=A[0], cigar=A[1], seq=A[2], covered=A[3], flag=99)
+                    rb = dict(base, name=f"isl{pid}_{s}_h{h}", start=B[0], cigar=B[1], seq=B[2], covered=B[3], flag=147)
+                    ra["mate"] = {"chrom": name, "start": rb["start"]}; rb["mate"] = {"chrom": name, "start": ra["start"]}
+                    reads += [ra, rb, dict(base, name=f"mid{pid}_{s}_h{h}", start=M[0], cigar=M[1], seq=M[2], covered=M[3], flag=0)]
+                if not ok:
+                    break
+            if ok:
+                sc.reads = [r for r in sc.reads if not (r["chrom"] == name and r["sample"] == s)] + reads
+                ctx.dist("island", "paired fragments around an unlinked island")
+                return
+
+
 def repeat_reference(r2):
     """a contig with a duplicated segment (segmental duplication / paralogous sequence variants): 2-4 copies of a
     50-90 bp unit separated by unique spacers; each copy carries one variant at the SAME offset, so the +-10 bp
@@ -127,6 +161,8 @@ def run(ctx):
                               het_prob=(0.95 if repeats else 0.8), given=(repeat_reference(r2) if repeats else None))
             ctx.dist("reference", "segmental-duplication" if repeats else "random")
             make_pairs(r2, sc, r2.choice([0.0, 0.0, 0.3]))
+            if r2.random() < 0.25:
+                add_island(r2, sc, ctx)
             if r2.random() < 0.3:
                 # clipped alignments (primer-trimmed amplicons, local aligners): hard clips are not part of SEQ, soft
                 # clips are; neither moves the aligned bases
